@@ -1006,6 +1006,13 @@ def c13(case: Case):
         for path, d in hits:
             for dt in d.get("doc", []):
                 for ln in sdsparse.doc_lines(dt):
+                    if "Init value " in ln and " of " in ln:
+                        # a constructor parameter's text (written in the class docstring) belongs to that class's comment
+                        mentioned = ln.rsplit(" of ", 1)[1].rstrip(".").strip()
+                        if not (kind == "class" and mentioned == name) and not _alias_of(case, mentioned, name):
+                            out.append({"what": f"comment of {own}.{name} carries a constructor parameter text of {mentioned}", "decl": f"{own}.{name}", "finding": None})
+                    if "re-initialisation of " in ln and name != "re__init__":
+                        out.append({"what": f"comment of {own}.{name} carries a parameter text of a re__init__ method", "decl": f"{own}.{name}", "finding": None})
                     if ln.startswith("Doc of "):
                         mentioned = ln[len("Doc of "):].split(".")[0].replace("class ", "").strip()
                         if mentioned != name and not _alias_of(case, mentioned, name):
@@ -1230,4 +1237,98 @@ def files_c11_imports(files: dict, nc: bool = False) -> list:
                 if nc and name.lower() in {x.lower() for x in declared.get(frm, set())}:
                     finding = "nc_class_reference_not_converted"
                 out.append({"what": f"{path}: import of {name} from {frm} does not resolve to a generated stub", "decl": path, "finding": finding})
+    return out
+
+
+# ---------------------------------------------------------------------------------------------------------------------------
+# L1: the API object is the ground truth
+def l1_api(it: dict):
+    """the API object of an L1 item, regenerated from its seed (or shape name)"""
+    import random as _r
+    import gen_api
+    seed = it["api_seed"]
+    if isinstance(seed, str) and seed.startswith("shape:"):
+        return next(f for f in gen_api.SHAPES if f.__name__ == seed[6:])()
+    return gen_api.gen_api(_r.Random(seed), it["api_idx"]) if "api_idx" in it else None
+
+
+def l1_c03(it: dict) -> list:
+    """module-level inventory: every public class, public function and enum of the API object is declared exactly once
+    (by kind and Python name) in the stub set of the package, and nothing else is declared at the top level"""
+    from collections import Counter
+    api = l1_api(it)
+    if api is None:
+        return []
+    want: Counter = Counter()
+    aliased: Counter = Counter()      # declarations that some package re-exports under another name: the stub may use that name
+
+    def is_aliased(t) -> bool:
+        return any(q.alias and q.qualified_name.split(".")[-1].endswith(t.name) for r in t.reexported_by for q in r.qualified_imports)
+    for m in api.modules.values():
+        for c in m.classes:
+            if c.is_public:
+                (aliased if is_aliased(c) else want)[("class", c.name)] += 1
+        for f in m.global_functions:
+            if f.is_public:
+                (aliased if is_aliased(f) else want)[("fun", f.name)] += 1
+        for e in m.enums:
+            want[("enum", e.name)] += 1
+    have: Counter = Counter()
+    root = api.package
+    for path, (mod, err) in parsed_files({k: v for k, v in it["impl"]["stubs"].items() if k.endswith(".sdsstub")}).items():
+        if mod is None or not (mod["python_module"] == root or mod["python_module"].startswith(root + ".")):
+            continue
+        for d in mod["decls"]:
+            if d["kind"] in ("class", "fun", "enum"):
+                have[(d["kind"], d["pyname"])] += 1
+    out = []
+    extra = 0
+    for k in sorted(set(want) | set(have) | set(aliased)):
+        if k in aliased:
+            # under its own name or under the alias: counted below
+            extra += want[k] + aliased[k] - have[k]
+            continue
+        if want[k] > have[k]:
+            out.append({"what": f"API object declares {want[k]} public {k[0]} named {k[1]} at module level, the stubs declare {have[k]}",
+                        "decl": k[1], "finding": None})
+        elif want[k] < have[k]:
+            extra -= have[k] - want[k]
+    if extra != 0 and not out:
+        out.append({"what": f"the stubs declare {-extra if extra < 0 else extra} module-level declaration(s) {'more' if extra < 0 else 'fewer'} than the API object has public ones (aliases counted)",
+                    "decl": api.package, "finding": None})
+    return out
+
+
+def l1_c11(it: dict) -> list:
+    """every class name used as a type or superclass in a stub file is built in, declared in that file, imported in it, a type
+    parameter or an enclosing/nested class name; private names and the names of the generator's type variables are left to
+    the recorded findings (private_class_as_type, stale_class_generics)"""
+    out = []
+    if not str(it["api_seed"]).startswith("shape:"):
+        return out      # the random API objects refer to classes that exist nowhere: only the hand-made shapes are closed
+    files = {k: v for k, v in it["impl"]["stubs"].items() if k.endswith(".sdsstub")}
+    for path, (mod, err) in parsed_files(files).items():
+        if mod is None:
+            continue
+        imported = {name for _, name in mod["imports"]}
+        local = {x["name"] for x in mod["decls"]} | {x["pyname"] for x in mod["decls"]}
+        for owner, d in sdsparse.walk_decls(mod):
+            refs: set = set()
+            tps = {t["name"] for t in d.get("tparams", [])}
+            if d["kind"] in ("fun", "class"):
+                for p in d.get("params") or []:
+                    _type_names(p["type"], refs)
+                for r in d.get("results", []):
+                    _type_names(r["type"], refs)
+                for s_ in d.get("supers", []):
+                    _type_names(s_, refs)
+            if d["kind"] == "attr":
+                _type_names(d["type"], refs)
+            for r in refs:
+                head = r.split(".")[0]
+                if head in BUILTIN_SDS or head in local or head in imported or head in tps or head in _enclosing_names(mod, owner):
+                    continue
+                if head.startswith("_") or head in ("T", "T_co", "in_", "`in`", "TCo", "In", "`in_`"):
+                    continue
+                out.append({"what": f"{path}: {head} used in {d['pyname']} is neither built in, declared nor imported", "decl": path, "finding": None})
     return out
